@@ -101,6 +101,142 @@ func c19RateSpecs(tier string) []*h.SeqSpec {
 	return specs
 }
 
+// c19Defaults enumerates assignments of the configuration fields to {unset, explicit values} and checks
+// SetDefaults against the documented defaults: unset fields take the default, explicitly set (non-zero) values survive.
+func c19Defaults(rep *h.Report) {
+	type triB = int // 0 unset, 1 true, 2 false
+	boolVal := func(v triB) *bool {
+		switch v {
+		case 1:
+			return bpF(true)
+		case 2:
+			return bpF(false)
+		}
+		return nil
+	}
+	wantB := func(v triB, def bool) bool {
+		if v == 0 {
+			return def
+		}
+		return v == 1
+	}
+	type num struct {
+		manifestLimit, refLimit     int64
+		pageExpire                  time.Duration
+		pageLimit                   int
+		freq, grace                 time.Duration
+		uploadMax                   int
+	}
+	nums := []num{}
+	for _, ml := range []int64{0, -5, 100} {
+		for _, rl := range []int64{0, 77} {
+			for _, pe := range []time.Duration{0, 3 * time.Second} {
+				for _, pl := range []int{0, 9} {
+					for _, fr := range []time.Duration{0, -1, 7 * time.Minute} {
+						for _, gr := range []time.Duration{0, -1, 90 * time.Minute} {
+							for _, um := range []int{0, -1, 5} {
+								nums = append(nums, num{ml, rl, pe, pl, fr, gr, um})
+							}
+						}
+					}
+				}
+			}
+		}
+	}
+	evals, distinct := 0, map[string]bool{}
+	check := func(b [9]triB, n num, store config.Store, root string) {
+		evals++
+		c := config.Config{
+			API: config.ConfigAPI{PushEnabled: boolVal(b[0]), DeleteEnabled: boolVal(b[1]), Blob: config.ConfigAPIBlob{DeleteEnabled: boolVal(b[2])},
+				Referrer: config.ConfigAPIReferrer{Enabled: boolVal(b[3]), Limit: n.refLimit, PageCacheExpire: n.pageExpire, PageCacheLimit: n.pageLimit},
+				Manifest: config.ConfigAPIManifest{Limit: n.manifestLimit}},
+			Storage: config.ConfigStorage{StoreType: store, RootDir: root, ReadOnly: boolVal(b[4]),
+				GC: config.ConfigGC{Frequency: n.freq, GracePeriod: n.grace, RepoUploadMax: n.uploadMax, Untagged: boolVal(b[5]), EmptyRepo: boolVal(b[6]), ReferrersDangling: boolVal(b[7]), ReferrersWithSubj: boolVal(b[8])}},
+		}
+		c.SetDefaults()
+		bad := func(field, format string, a ...any) {
+			v := h.V("defaults-and-explicit-values", "setdefaults-wrong:"+field, "SetDefaults: "+field+": "+format, a...)
+			v.Conf = "config.SetDefaults"
+			v.History = []string{fmt.Sprintf("bools=%v numbers=%+v store=%v root=%q", b, n, store, root)}
+			rep.AddViolation(v)
+		}
+		bp := func(field string, got *bool, v triB, def bool) {
+			if got == nil || *got != wantB(v, def) {
+				bad(field, "got %v, want %v", got, wantB(v, def))
+			}
+		}
+		bp("API.PushEnabled", c.API.PushEnabled, b[0], true)
+		bp("API.DeleteEnabled", c.API.DeleteEnabled, b[1], false)
+		bp("API.Blob.DeleteEnabled", c.API.Blob.DeleteEnabled, b[2], false)
+		bp("API.Referrer.Enabled", c.API.Referrer.Enabled, b[3], true)
+		bp("Storage.ReadOnly", c.Storage.ReadOnly, b[4], false)
+		bp("GC.Untagged", c.Storage.GC.Untagged, b[5], false)
+		bp("GC.EmptyRepo", c.Storage.GC.EmptyRepo, b[6], true)
+		bp("GC.ReferrersDangling", c.Storage.GC.ReferrersDangling, b[7], false)
+		bp("GC.ReferrersWithSubj", c.Storage.GC.ReferrersWithSubj, b[8], true)
+		wantML := n.manifestLimit
+		if wantML <= 0 {
+			wantML = 8 * 1024 * 1024
+		}
+		if c.API.Manifest.Limit != wantML {
+			bad("API.Manifest.Limit", "got %d, want %d", c.API.Manifest.Limit, wantML)
+		}
+		d64 := func(field string, got, set, def int64) {
+			want := set
+			if set == 0 {
+				want = def
+			}
+			if got != want {
+				bad(field, "got %d, want %d", got, want)
+			}
+		}
+		d64("API.Referrer.Limit", c.API.Referrer.Limit, n.refLimit, 4*1024*1024)
+		d64("API.Referrer.PageCacheExpire", int64(c.API.Referrer.PageCacheExpire), int64(n.pageExpire), int64(5*time.Minute))
+		d64("API.Referrer.PageCacheLimit", int64(c.API.Referrer.PageCacheLimit), int64(n.pageLimit), 1000)
+		d64("GC.Frequency", int64(c.Storage.GC.Frequency), int64(n.freq), int64(15*time.Minute))
+		d64("GC.GracePeriod", int64(c.Storage.GC.GracePeriod), int64(n.grace), int64(time.Hour))
+		d64("GC.RepoUploadMax", int64(c.Storage.GC.RepoUploadMax), int64(n.uploadMax), 1000)
+		wantRoot := root
+		if store == config.StoreDir && root == "" {
+			wantRoot = "."
+		}
+		if c.Storage.RootDir != wantRoot || c.Storage.StoreType != store {
+			bad("Storage.RootDir", "store %v root %q, want %q", c.Storage.StoreType, c.Storage.RootDir, wantRoot)
+		}
+		distinct[fmt.Sprintf("%v%v", b, n)] = true
+	}
+	var pats [][9]triB
+	total := 1
+	for i := 0; i < 9; i++ {
+		total *= 3
+	}
+	for k := 0; k < total; k++ {
+		var b [9]triB
+		x := k
+		for i := range b {
+			b[i] = x % 3
+			x /= 3
+		}
+		pats = append(pats, b)
+	}
+	allSet := num{100, 77, 3 * time.Second, 9, 7 * time.Minute, 90 * time.Minute, 5}
+	for _, b := range pats {
+		check(b, num{}, config.StoreMem, "")
+		check(b, allSet, config.StoreDir, "/x")
+	}
+	for _, n := range nums {
+		for _, b := range [][9]triB{{}, {1, 1, 1, 1, 1, 1, 1, 1, 1}, {2, 2, 2, 2, 2, 2, 2, 2, 2}} {
+			check(b, n, config.StoreDir, "")
+			check(b, n, config.StoreMem, "/y")
+		}
+	}
+	rep.Evals += evals
+	rep.States += len(distinct)
+	rep.NonTrivial += len(distinct)
+	rep.Trans += evals
+	rep.Parts = append(rep.Parts, map[string]any{"setdefaults_assignments": evals, "distinct_assignments": len(distinct)})
+}
+
 type c19Viol struct {
 	Rule   string   `json:"rule"`
 	Sig    string   `json:"sig"`
@@ -128,10 +264,12 @@ func init() {
 	h.Checks["C19"] = func(tier string) int {
 		rep := h.NewReport("C19", tier, "model_checking")
 		rep.Rule = "part 1 (rate limit): breadth-first search over all sequences (bounded depth) of requests from address A, from B and from A through X-Forwarded-For, and virtual time steps 400 ms, 1 s, 1 s + 1 ns, 11 s, for RateLimit in {1,2,3}, against the documented fixed window (more than one second since the first counted request starts a new window). " +
+			"part 1b (defaults): config.SetDefaults on every {unset,true,false} assignment of the 9 boolean fields (3^9) with the numeric fields all unset / all set, and on every assignment of the 7 numeric fields to {0, negative, positive} values with three boolean patterns, against the documented defaults (an explicit non-zero value is never overridden). " +
 			"part 2 (flag space, inside a build of cmd/olareg with the real cobra command): every assignment of the 8 boolean serve flags to true / false plus each flag alone not given (quick: 273 assignments) or to {not given, true, false} (thorough: 6561) x store type {dir, mem}: the configuration the server holds and a fixed probe script (reads, referrers, blob upload, session, manifest and artifact push, manifest and blob delete, directory snapshot) are compared with a table written from the flag help texts and config.go; warnings (0-2), rate-limit, gc durations (not given / negative / positive), 'collection disabled' surviving shutdown; " +
 			"part 3 (termination): a real SIGTERM after every prefix of a 6-request push history (incl. an open session): serve returns nil, the store is closed, a second run serves everything acknowledged from a valid layout; non-trivial = configuration points"
 		rep.Assume = []string{"TLS flags, address binding and verbosity are not covered", "the signal is delivered between requests (the Run/Shutdown hand-shake race before the listener is registered is not explored)"}
 		h.RunSeqInto(rep, "C19rate", tier, time.Time{})
+		c19Defaults(rep)
 		// part 2 and 3: the cmd/olareg build
 		exe := filepath.Join(filepath.Dir(os.Args[0]), "olareg-verif")
 		cmd := exec.Command(exe)
